@@ -14,7 +14,8 @@ LEAN_TARGETS = ["PasslibVerif.Props.C01", "PasslibVerif.Props.C01Crypt"]
 FAMILIES = [("c01_pbkdf", ["PasslibVerif.Props.C01Pbkdf"], "pbkdf-family-hash-verify-model"),
             ("c01_misc", ["PasslibVerif.Props.C01Misc"], "misc-family-hash-verify-model"),
             ("c01_desbcrypt", ["PasslibVerif.Props.C01DesBcrypt"], "des-bcrypt-family-hash-verify-model"),
-            ("c01_static", ["PasslibVerif.Props.C01Static", "PasslibVerif.Props.C01StaticExamples", "PasslibVerif.Props.C01StaticExamples2"], "static-family-hash-verify-model")]
+            ("c01_static", ["PasslibVerif.Props.C01Static", "PasslibVerif.Props.C01StaticExamples", "PasslibVerif.Props.C01StaticExamples2"], "static-family-hash-verify-model"),
+            ("c01_wrap", ["PasslibVerif.Props.C01Wrap", "PasslibVerif.Props.C01WrapCode"], "wrap-family-hash-verify-model")]
 LEAN_TARGETS += [t for f in FAMILIES for t in f[1]]
 ASSUMPTIONS = [
     "that two secrets which differ outside a format's documented equivalences have different checksums is collision resistance of the digest primitives — not a theorem; "
